@@ -7,7 +7,7 @@ BOUNDS = {
     "quick": "(num) Labware(rows 1..2 x columns 1..2; per-well initial volumes for up to 2 wells, scalar for 2x2) and Trough(virtual_rows 1|3 x columns 1..2) with min_volume, max_volume and the initial volumes ranging over ALL "
              "IEEE-754 doubles (NaN, +-inf, -0.0 included), initial volumes given as scalar / flat list / 2-D list (per-column list for troughs), bit-precise; "
              "(layout) initial volumes as numpy arrays, C-ordered and as a transposed view, plates 2x2 / 2x3 with symbolic volumes; (alias) two labware built from one float array must not share state (concrete, real numpy); (size) rows in {-1,0,1,2,26,27,40,2.5,'2',None,True}, columns in {-1,0,1,2,120,2.5,None}, virtual_rows in {None,-1,0,1,26,27,2.5,'3'} with concrete "
-             "volumes; (names) component_names / column_names for empty, filled and unknown wells and per-column lists of wrong length",
+             "volumes; (names) component_names / column_names for empty, filled and unknown wells and per-column lists of wrong length; every size case preceded by the construction of another labware of the same kind (same geometry, transposed, or the geometry with the same digit string, e.g. 11x20 before 1x120)",
     "thorough": "rows 1..3 x columns 1..3 for the numeric part",
 }
 OUTSIDE = "sizes not listed (the checks on sizes are comparisons against constants; 26/27 and 0/1 are their boundaries)"
